@@ -65,7 +65,7 @@ fn v(sig: String, detail: String) -> Violation {
 }
 
 pub fn cli_bin() -> String {
-    std::env::var("VH_CLI_BIN").unwrap_or_else(|_| "/verif/.target/cli/debug/muxide".to_string())
+    std::env::var("VH_CLI_BIN").unwrap_or_else(|_| format!("{}/cli/debug/muxide", crate::util::target_dir()))
 }
 
 pub struct Ran {
@@ -145,7 +145,7 @@ pub fn acodec_of(name: &str) -> Option<u8> {
 
 pub fn eval(c: &CliCase, obs: &mut Obs) -> Vec<Violation> {
     let mut out = Vec::new();
-    let dir = format!("/verif/.target/tmp/cli-{}-{:x}", std::process::id(), crate::util::fnv(format!("{:?}", c).as_bytes()));
+    let dir = format!("{}/tmp/cli-{}-{:x}", crate::util::target_dir(), std::process::id(), crate::util::fnv(format!("{:?}", c).as_bytes()));
     let _ = std::fs::remove_dir_all(&dir);
     if std::fs::create_dir_all(&dir).is_err() {
         obs.inconclusive += 1;
